@@ -349,6 +349,57 @@ def m_vec_append(c, call, v, o):
     o = deref(o); deref(v).items.extend(o.items); o.items = []; return UNIT
 
 
+def _lt_term(c, a, b, callee=''):
+    """a < b for sort keys: booleans (false < true), bit-vectors (unsigned unless the callee names a signed type)"""
+    a = deref(a); b = deref(b)
+    if z3.is_bool(a) or isinstance(a, bool): return z3.And(z3.Not(a), b)
+    if z3.is_bv(a):
+        return (a < b) if re.search(r'<i(8|16|32|64|size)\b', callee) else z3.ULT(a, b)
+    raise Unsupported('sort key of type ' + type(a).__name__)
+
+
+def _sort_target(v):
+    v = deref(v)
+    if isinstance(v, VecV): return (lambda: list(v.items)), (lambda xs: setattr(v, 'items', xs))
+    if isinstance(v, SliceV):
+        def put(xs): v.buf[v.lo:v.hi] = xs
+        return (lambda: list(v.buf[v.lo:v.hi])), put
+    raise Unsupported('sort on ' + type(v).__name__)
+
+
+def _stable_sort(c, items, lt):
+    out = []
+    for x in items:                       # insertion sort, stable: x goes after every element not greater than it
+        i = len(out)
+        while i > 0 and c.branch(lt(x, out[i - 1])): i -= 1
+        out.insert(i, x)
+    return out
+
+
+@reg('slice::sort_by_key', 'slice::sort_by_cached_key', 'slice::sort_unstable_by_key', 'Vec::sort_by_key')
+def m_sort_by_key(c, call, v, f):
+    get, put = _sort_target(v)
+    keyed = [(c.callf(f, [x]), x) for x in get()]
+    put([x for _, x in _stable_sort(c, keyed, lambda a, b: _lt_term(c, a[0], b[0], call.callee))])
+    return UNIT
+
+
+@reg('slice::sort', 'slice::sort_unstable', 'Vec::sort', 'Vec::sort_unstable')
+def m_sort(c, call, v):
+    get, put = _sort_target(v)
+    put(_stable_sort(c, get(), lambda a, b: _lt_term(c, a, b, call.callee)))
+    return UNIT
+
+
+@reg('slice::sort_by', 'slice::sort_unstable_by', 'Vec::sort_by')
+def m_sort_by(c, call, v, f):
+    get, put = _sort_target(v)
+    def lt(a, b):
+        o = c.callf(f, [a, b]); return z3.BoolVal(deref(o).variant == 'Less')
+    put(_stable_sort(c, get(), lt))
+    return UNIT
+
+
 @reg('Vec::first', 'Vec::last')
 def m_vec_first_last(c, call, v):
     xs = deref(v).items
